@@ -2,17 +2,18 @@
 C12 (magnitude half) / C04 / C11 / C16: L2 model, in CHECKED arithmetic, of the derivation of every internal
 parameter from `x` and the tuning factors, for both widths:
 
-* `src/gourdon/pi_gourdon.cpp`   38-63 (`pi_gourdon_64`), 100-131 (`pi_gourdon_128`: range check first)
-* `src/deleglise-rivat/pi_deleglise_rivat.cpp` 66-78 (`_64`), 107-121 (`_128`)
-* `src/lmo/pi_lmo_parallel.cpp` 222-231, `src/lmo/pi_lmo5.cpp` 152-162
-* `src/util.cpp` 412-436 (`get_x_star_gourdon`), `src/api.cpp` 181-190 (`get_max_x`)
-* `include/PhiTiny.hpp` 118-134 (`get_c`, `get_k`), `include/FactorTable.hpp` 193-197 / `FactorTableD.hpp` 225-229 (`max()`)
-  and the `throw` in the constructors (70-71 / 74-75), the element type choice `D.cpp` 311-322, `S2_hard.cpp` 309-321,
-  `AC_libdivide.cpp` 513-523
-* the values the callees derive once more: `xy = x / y`, `xz = x / z` (`AC_libdivide.cpp` 340-343, `D.cpp` 189, `B.cpp` 101,
-  `P2.cpp` 107), `isqrt(z)`, `max_a_prime` (`AC_libdivide.cpp` 510), the thread counts (`D.cpp` 194-197,
-  `AC_libdivide.cpp` 347-350, `S2_hard.cpp` 189-192)
-* `include/fast_div.hpp` 103-133 (`fast_div64`: the x86 `div` instruction traps unless the quotient fits 64 bits)
+* `src/gourdon/pi_gourdon.cpp`   37-70 (`pi_gourdon_64`: derivation 44-62), 100-138 (`pi_gourdon_128`: range check 107-112
+  first, derivation 114-130)
+* `src/deleglise-rivat/pi_deleglise_rivat.cpp` 66-79 (`_64`: 73-78), 105-122 (`_128`: range check 112-116, derivation 118-121)
+* `src/lmo/pi_lmo_parallel.cpp` 232-236, `src/lmo/pi_lmo5.cpp` 162-166
+* `src/util.cpp` 421-445 (`get_x_star_gourdon`), 47-50 (`truncate3`), 173-201 (`set_alpha*`); `src/api.cpp` 187-196 (`get_max_x`)
+* `include/PhiTiny.hpp` 117-133 (`get_c`, `get_k`), `include/FactorTable.hpp` 193-197 / `FactorTableD.hpp` 225-229 (`max()`)
+  and the `throw` in the constructors (70-71 / 74-75), the element type choice `D.cpp` 256 / 311-322, `S2_hard.cpp` 253 /
+  309-321, `AC_libdivide.cpp` 480 / 516-524
+* the values the callees derive once more: `xy = x / y`, `xz = x / z` (`AC_libdivide.cpp` 322-323, `AC.cpp` 213-214, `D.cpp` 199,
+  `B.cpp` 97, `P2.cpp` 112), `isqrt(z)`, `max_a_prime` (`AC_libdivide.cpp` 478 / 511), the thread counts (`D.cpp` 203-207,
+  `AC_libdivide.cpp` 326-330, `S2_hard.cpp` 198-202)
+* `include/fast_div.hpp` 105-133 (`fast_div64`: the x86 `div` instruction traps unless the quotient fits 64 bits)
 
 Every value that the C++ code obtains from a `double` is a PARAMETER (`GFloats`, `DFloats`): the model receives the
 mathematically truncated value of the double (an unbounded integer) and performs the cast CHECKED — a cast whose operand
@@ -71,7 +72,7 @@ def getK (x : Nat) : Nat := getC (irootN 4 x)
 /-- `FactorTable<T>::max() = ipow<2>(T_MAX - 1) - 1` (same formula in FactorTableD) -/
 def factorTableMax (tBits : Nat) : Nat := (2 ^ tBits - 1 - 1) ^ 2 - 1
 
-/-! ### get_x_star_gourdon (util.cpp 412-436) in checked arithmetic -/
+/-! ### get_x_star_gourdon (util.cpp 421-445) in checked arithmetic -/
 
 /-- all arithmetic is done in `maxint_t` (int128) resp. `int64_t` exactly as in the source:
     `y = max(y, 1); yy = (maxint_t) y * y; x_div_yy = ceil_div(x, yy) = (x + yy - 1) / yy;`
@@ -214,7 +215,7 @@ def lmoL2 (x : Nat) (v : Int) : Except PErr LOut := do
   if y = 0 then throw .divZero
   pure { x13, y, z := Int.tdiv x y, c := getCI y }
 
-/-! ### the tuning-factor state machine on exact values (util.cpp 183-211, 49-52)
+/-! ### the tuning-factor state machine on exact values (util.cpp 173-201, 47-50)
 
 `set_alpha*(a)`: `if (a < 1.0) alpha_ = -1; else alpha_ = truncate3(a)` with
 `truncate3(n) = (int64_t)(n * 1000) / 1000.0`. `lt1` and `k` (the truncation of the double `a * 1000`) are the float outcomes. -/
